@@ -611,3 +611,7 @@ CHECKS["C18"]["units"].append(unit(CTRL_PKG, CTRL_FILES, "^Harness_C25_", QT, fl
 CHECKS["C18"]["explanation"] += " Precondition of the SQL half: on the posting-list shapes of the C25 corpus (repeated accounts, source = destination, twelve accounts) and on the create requests of the operation list (a script that sets metadata on its own destination account, account metadata given next to the postings) the batch the real controller hands to UpsertAccounts names every account once."
 CHECKS["C18"]["outside"] = CHECKS["C18"]["outside"].replace("; duplicate addresses inside one batch", "; duplicate addresses inside one batch on the SQL side (the Go side shows the controller never builds one, on the C25 shapes)")
 CHECKS["C18"]["units"].append(unit(CTRL_PKG, CTRL_FILES, "^Harness_OPS_wet_create_", QT, flags={"labels": "^(C18:|no-panic)", "max-decisions": 4000}, reach=["end"]))
+
+CHECKS["C38"]["units"].append(unit("./internal/storage/ledger", ["storage/bunhook.go", "storage/c38expand.go"], "^Harness_C38_expand_", QT, flags={"labels": "^(C38:|no-panic)", "max-decisions": 2000}, reach=["end"]))
+CHECKS["C38"]["explanation"] += " The expand parameter: the real Expand methods of the accounts, transactions, logs and volumes resource handlers get a symbolic value that is none of the documented ones: it is refused or ignored, never built into the statement (bun opaque; strcase.SnakeCase of a symbolic string is an arbitrary string)."
+CHECKS["C38"]["bounds"]["quick"] += "; expand values of <= 8 symbolic bytes"
